@@ -218,7 +218,7 @@ case("C20", "accept-ge", "VIOLATION", [(DS, "if improvement > best_improvement:"
 case("C20", "tol-on-last-improvement", "VIOLATION", [(DS, "if best_improvement <= tol:", "if improvement <= tol:")], "R-ACCEPT")
 case("C20", "tol-before-apply", "VIOLATION", [(DS, "\t\tif best_motif_idx != -1:", "\t\tif best_improvement <= tol:\n\t\t\tbreak\n\t\tif best_motif_idx != -1:"), (DS, "\t\tif best_improvement <= tol:\n\t\t\tbreak\n\n\t\titeration += 1", "\t\titeration += 1")], "R-ACCEPT")
 case("C20", "loss-prev-stale", "VIOLATION", [(DS, "\t\t\tloss_prev = best_loss\n", "")], "R-ACCEPT")
-case("C20", "best-not-reset", "VIOLATION", [(DS, "\t\ttic = time.time()\n\t\tbest_improvement, best_motif_idx, best_pos = 0, -1, -1", "\t\ttic = time.time()"), (DS, "\ttic = time.time()\n\titeration = 0", "\ttic = time.time()\n\titeration = 0\n\tbest_improvement, best_motif_idx, best_pos = 0, -1, -1")], "R-ACCEPT")
+case("C20", "best-not-reset", "NOT-SILENT", [(DS, "\t\ttic = time.time()\n\t\tbest_improvement, best_motif_idx, best_pos = 0, -1, -1", "\t\ttic = time.time()"), (DS, "\ttic = time.time()\n\titeration = 0", "\ttic = time.time()\n\titeration = 0\n\tbest_improvement, best_motif_idx, best_pos = 0, -1, -1")], "R-ACCEPT")
 case("C20", "apply-wrong-pos", "VIOLATION", [(DS, "X = substitute(X, motifs[best_motif_idx], start=best_pos, ", "X = substitute(X, motifs[best_motif_idx], start=pos, ")], "R-ACCEPT")
 case("C20", "maxiter-after-search", "VIOLATION", [(DS, "\t\tif iteration == max_iter:\n\t\t\tbreak\n\n\t\ttic = time.time()", "\t\ttic = time.time()"), (DS, "\t\tif best_improvement <= tol:\n\t\t\tbreak", "\t\tif best_improvement <= tol:\n\t\t\tbreak\n\t\tif iteration == max_iter:\n\t\t\tbreak")], "R-ACCEPT")
 
